@@ -151,3 +151,19 @@ Proof. vm_compute. reflexivity. Qed.
 (* "Zm=v" : symbol after padding *)
 Example b64_ex_rej_pad_then_sym : b64_decode [90; 109; 61; 118] = None.
 Proof. vm_compute. reflexivity. Qed.
+
+(* "Zm9vYg=" : one padding character missing *)
+Example b64_ex_rej_short_pad : b64_decode [90; 109; 57; 118; 89; 103; 61] = None.
+Proof. vm_compute. reflexivity. Qed.
+
+(* "Zm9vY===" : too much padding *)
+Example b64_ex_rej_long_pad : b64_decode [90; 109; 57; 118; 89; 61; 61; 61] = None.
+Proof. vm_compute. reflexivity. Qed.
+
+(* "====" *)
+Example b64_ex_rej_only_pad : b64_decode [61; 61; 61; 61] = None.
+Proof. vm_compute. reflexivity. Qed.
+
+(* "Zm9vYmF=" : non-zero trailing bits with one padding character *)
+Example b64_ex_rej_trailing_bits2 : b64_decode [90; 109; 57; 118; 89; 109; 70; 61] = None.
+Proof. vm_compute. reflexivity. Qed.
